@@ -185,6 +185,48 @@ func judgeC13Inner(rec *stats.Rec, c c13Case, cli string) (string, string) {
 		if err := json.Unmarshal(b, &s); err == nil {
 			return "unknown-source-accepted|json", fmt.Sprintf("JSON decoding accepts unknown source %q", c.Token)
 		}
+	case "profile-options":
+		// FilterOptions.AddProfile appends the profile's lint names to IncludeNames: the result selects the
+		// union, and an unknown name - given before or brought in by the profile - is still rejected
+		var inc, pn []string
+		_ = json.Unmarshal([]byte(c.Token), &inc)
+		_ = json.Unmarshal([]byte(c.Extra), &pn)
+		opts := lint.FilterOptions{IncludeNames: inc}
+		if c.Pad == "nil" {
+			opts.IncludeNames = nil
+		}
+		opts.AddProfile(lint.Profile{Name: "verif_profile", LintNames: pn})
+		want := map[string]bool{}
+		unknown := ""
+		for _, n := range append(append([]string{}, inc...), pn...) {
+			t := strings.TrimSpace(n)
+			if g.CertificateLints().ByName(t) == nil && g.RevocationListLints().ByName(t) == nil && g.OcspResponseLints().ByName(t) == nil {
+				unknown = n
+			}
+			want[t] = true
+		}
+		r, err := g.Filter(opts)
+		if unknown != "" {
+			if err == nil {
+				return "unknown-name-accepted|profile", fmt.Sprintf("include names %q + profile %q: unknown name %q silently accepted (registry of %d lints returned)", inc, pn, unknown, len(r.Names()))
+			}
+			return "", ""
+		}
+		if len(want) == 0 {
+			return "", ""
+		}
+		if err != nil {
+			return "profile-rejected", fmt.Sprintf("include names %q + profile %q rejected: %v", inc, pn, err)
+		}
+		got := r.Names()
+		if len(got) != len(want) {
+			return "profile-selection", fmt.Sprintf("include names %q + profile %q select %d lints, want the union (%d)", inc, pn, len(got), len(want))
+		}
+		for _, n := range got {
+			if !want[n] {
+				return "profile-selection", fmt.Sprintf("include names %q + profile %q select %s", inc, pn, n)
+			}
+		}
 	case "accepted-is-known":
 		// whatever a decoder accepts must be one of the known sources - otherwise an
 		// unknown source has been let in silently (it selects and excludes nothing)
@@ -361,6 +403,33 @@ func TestC13(t *testing.T) {
 			}
 			rec.Eval()
 			rec.Class(c.What)
+			if sig, msg := judgeC13(rec, c, cli); msg != "" {
+				fail(rt, rec, "c13", sig, msg, c)
+			}
+		}
+		{
+			// generated include names and profile contents (known names, sometimes an unknown token in either)
+			draw := func(lbl string) []string {
+				n := rapid.IntRange(0, 4).Draw(rt, lbl+"n")
+				out := make([]string, 0, n)
+				for i := 0; i < n; i++ {
+					out = append(out, rapid.SampledFrom(names).Draw(rt, lbl))
+				}
+				if rapid.IntRange(0, 2).Draw(rt, lbl+"unk") == 0 && !known[strings.TrimSpace(tok)] && strings.TrimSpace(tok) != "" {
+					out = append(out, tok)
+				}
+				return out
+			}
+			inc, pn := draw("inc"), draw("prof")
+			bi, _ := json.Marshal(inc)
+			bp, _ := json.Marshal(pn)
+			c := c13Case{What: "profile-options", Token: string(bi), Extra: string(bp)}
+			if len(inc) == 0 && rapid.Bool().Draw(rt, "nilinc") {
+				c.Pad = "nil"
+			}
+			rec.Eval()
+			rec.Class(c.What)
+			rec.NT(stats.HashS(c.What, c.Token, c.Extra))
 			if sig, msg := judgeC13(rec, c, cli); msg != "" {
 				fail(rt, rec, "c13", sig, msg, c)
 			}
